@@ -427,6 +427,9 @@ func cmdCheck(args []string) int {
 						ok++
 					} else {
 						mismatches++
+						if f := os.Getenv("SYMX_MISMATCH_FILE"); f != "" {
+							os.WriteFile(f, []byte(strings.Join(s.Obs, "\n")+"\n=====\n"+strings.Join(r.Obs, "\n")+"\n"), 0o644) //nolint:errcheck
+						}
 						fmt.Printf("INCONCLUSIVE property=%s harness=%s engine/native mismatch on inputs %s: engine %s %v native %s %v %s\n",
 							id, h.Fn, mustJSON(s.Inputs), s.Status, s.Obs, r.Status, r.Obs, firstLine(r.Panic))
 					}
